@@ -11,6 +11,35 @@ SANITIZERS = re.compile(r'(::saturating_(add|sub|mul)$|::checked_(add|sub|mul)$|
 ARITH_RE = re.compile(r'^(Add|AddWithOverflow|AddUnchecked|Mul|MulWithOverflow|MulUnchecked|Sub|SubWithOverflow|SubUnchecked)\((.*)\)$')
 
 
+DEREF_FIELD_RE = re.compile(r'\(\(\*_(\d+)\)\.(\d+): u64\)')
+DIRECT_FIELD_RE = re.compile(r'\(_(\d+)\.(\d+): u64\)')
+
+
+def limit_field_reads(body):
+    """[(stmt, field index)] for assignments reading a field of a LimitClause."""
+    body.parse()
+    out = []
+    for bid, blk in body.blocks.items():
+        if blk.cleanup:
+            continue
+        for s in blk.stmts:
+            if s.kind != 'assign':
+                continue
+            m = LIMIT_FIELD_RE.search(s.rhs)
+            if m:
+                out.append((s, int(m.group(1))))
+                continue
+            for rx in (DEREF_FIELD_RE, DIRECT_FIELD_RE):
+                m = rx.search(s.rhs)
+                if m:
+                    ty = (body.local_type(int(m.group(1))) or '').replace('&', '').strip()
+                    ty = re.sub(r"^'[a-z_]+ ", '', ty)
+                    if ty.endswith('syntax::limit::LimitClause'):
+                        out.append((s, int(m.group(2))))
+                        break
+    return out
+
+
 def _split2(s):
     depth = 0
     for i, c in enumerate(s):
@@ -42,24 +71,14 @@ def limit_taint(ctx):
     for b in P.fn_bodies():
         if b.crate != 'locustdb':
             continue
-        b.parse()
-        for bid, blk in b.blocks.items():
-            if blk.cleanup:
-                continue
-            for s in blk.stmts:
-                if s.kind == 'assign' and LIMIT_FIELD_RE.search(s.rhs):
-                    l = base_local(s.lhs)
-                    fld = LIMIT_FIELD_RE.search(s.rhs).group(1)
-                    org = 'LimitClause.%s' % ('limit' if fld == '0' else 'offset')
-                    if l is not None and l not in taint[b.name]:
-                        taint[b.name][l] = org
-                        work.append((b, l))
-            t = blk.term
-            if t is not None and t.kind == 'call':
-                for a in t.args:
-                    if LIMIT_FIELD_RE.search(a):
-                        # passed directly as an argument
-                        pass
+        if re.search(r' as (Debug|Clone|Serialize|Deserialize|PartialEq|Hash)', b.name):
+            continue
+        for (s, fld) in limit_field_reads(b):
+            l = base_local(s.lhs)
+            org = 'LimitClause.%s' % ('limit' if fld == 0 else 'offset')
+            if l is not None and l not in taint[b.name]:
+                taint[b.name][l] = org
+                work.append((b, l))
     # propagate
     while work:
         b, l = work.popleft()
